@@ -125,7 +125,7 @@ def gen_cases(rng, tier):
         has_vk = any(p["kind"] == "VK" for p in params)
         full = {p["name"]: (p["default"] if p["default"] != "<nodefault>" and rng.random() < 0.5 else rng.choice(VALS)) for p in named}
         surplus = [rng.choice(ATOMS) for _ in range(rng.randint(0, 2))] if has_vp and rng.random() < 0.5 else []
-        extra = {rng.choice(["x", "y", "w"]): rng.choice(ATOMS) for _ in range(rng.randint(0, 2))} if has_vk and rng.random() < 0.6 else {}
+        extra = {rng.choice(["x", "y", "w", "kw"]): rng.choice(ATOMS) for _ in range(rng.randint(0, 2))} if has_vk and rng.random() < 0.6 else {}      # "kw": an extra keyword named like the ** parameter itself
         # template
         mode = "noself" if method else rng.choice(["auto", "auto", "explicit", "decor"])
         tmpl = None
@@ -154,7 +154,17 @@ def gen_cases(rng, tier):
                 if p["name"] == pn and p["default"] != "<nodefault>" and rng.random() < 0.6:
                     p["default"] = v2
         params = [dict(p, default=(p["default"] if p["default"] == "<nodefault>" else _jv(p["default"]))) for p in params]
-        cases.append({"params": params, "full": _j(full), "surplus": _jl(surplus), "extra": _j(extra), "mode": mode, "tmpl": tmpl,
+        fmt = None
+        if mode == "explicit" and rng.random() < 0.35:
+            fmt = rng.choice(["hash", "hash", "hash(sha1)", "lower", "len"])      # a format function on every field: outside the model, judged by the oracle alone
+            fields = [f for f in tmpl[1:] if not f.startswith("__")]
+            if fields and rng.random() < 0.6:      # a dict-valued field under the format function (its forms build the dict in both orders)
+                pn = rng.choice(fields)
+                if g2 is None or full.get(pn) == g2.get(pn):
+                    full = dict(full); full[pn] = {"k": 1, "j": 2}
+                    if g2 is not None:
+                        g2 = dict(g2); g2[pn] = {"k": 1, "j": 2}
+        cases.append({"params": params, "full": _j(full), "surplus": _jl(surplus), "extra": _j(extra), "mode": mode, "tmpl": tmpl, "fmt": fmt,
                       "full2": _j(g2) if g2 is not None else None, "given": rng.random() < 0.9,
                       "surplus2": _jl(surplus2) if surplus2 is not None else None, "ctx_left_by_exception": rng.random() < 0.25})
     return cases
@@ -211,7 +221,8 @@ def run_impl(case):
         if case["tmpl"] is None:
             tstr = get_cache_key_template(fn)
         else:
-            tstr = case["tmpl"][0] + "".join(":{" + f + "}" for f in case["tmpl"][1:])
+            sfx = ":" + case["fmt"] if case.get("fmt") else ""
+            tstr = case["tmpl"][0] + "".join(":{" + f + sfx + "}" for f in case["tmpl"][1:])
             tstr = get_cache_key_template(fn, key=tstr)
         out["template"] = tstr
         seen = []
@@ -249,13 +260,17 @@ def run_impl(case):
             if len(fs) > 12:      # a spread over the enumeration: mostly-keyword forms come first, fully positional ones last
                 fs = fs[:6] + fs[-6:]
             for n_form, (args, kwargs) in enumerate(fs):
-                if n_form % 2:      # the same call with its keywords given in the opposite order
+                if n_form % 2:      # the same call with its keywords given in the opposite order, and dict values built in the opposite order
                     kwargs = dict(reversed(list(kwargs.items())))
+                    kwargs = {n: (dict(reversed(list(v.items()))) if isinstance(v, dict) else v) for n, v in kwargs.items()}
+                    args = [(dict(reversed(list(v.items()))) if isinstance(v, dict) else v) for v in args]
                 try:
                     ba = sig.bind(*(([inst] if method else []) + list(args)), **kwargs); ba.apply_defaults()
                 except TypeError:
                     continue
-                key_args = repr(sorted((k, repr(v), type(v).__name__) for k, v in ba.arguments.items()))
+                def canon(v):      # equal arguments whatever the order a dict was built in
+                    return repr(sorted(v.items(), key=repr)) if isinstance(v, dict) else repr(v)
+                key_args = repr(sorted((k, canon(v), type(v).__name__) for k, v in ba.arguments.items()))
                 if ref is None: ref = key_args
                 if key_args != ref:
                     continue  # not equivalent (should not happen)
@@ -300,6 +315,8 @@ def to_coq(case, obs):
         return [(([kv(_uv(a)) for a in args], [(S(n), kv(_uv(v))) for n, v in kwargs.items()]), None if k is None else Some(S(k))) for args, kwargs, k in g]
     given = True if case["mode"] in ("decor", "noself") else bool(case["given"])
     sep = bool(obs["g2"]) and bool(obs["g1"])
+    if case.get("fmt"):
+        return C("CKeyOpaque", grp(obs["g1"]), grp(obs["g2"]), sep and case["fmt"].startswith("hash") and given)
     return C("CKey", ps, _tmpl_coq(case, obs), given, grp(obs["g1"]), grp(obs["g2"]), sep)
 
 
